@@ -32,8 +32,8 @@ EligibleSubsetOfUnderTest ==
   l > 0 => \A i \in Scope : Must(T.M, i, cur.vis, T.modign) => i \in UT
 (* ... and nothing defined in another module: directly (imported functions / classes and    *)
 (* their members) or as the view of a member a SUT class merely inherits from a class of     *)
-(* another module.  (The view of a member inherited from a SUT class is not foreign; it      *)
-(* falsifies UnderTestSubsetOfEligible: May demands inh = "own".)                             *)
+(* another module.  (The view of a member inherited from a SUT class is not foreign and is  *)
+(* accepted by May: it is written in the module under test.)                                  *)
 NothingForeignUnderTest == l > 0 => \A i \in UT : ~Foreign(T.M, i)
 
 (* not part of C27 (reported as drift): the code decides exactly like ClusterOps!CodeInclude *)
